@@ -65,7 +65,7 @@ sim::Json GenOpts::to_json() const {
     j["allow_msw"] = allow_msw; j["allow_history"] = allow_history; j["allow_groups"] = allow_groups;
     j["restart_safe_conditions"] = restart_safe_conditions; j["nonmidnight"] = nonmidnight; j["step_events"] = step_events;
     j["action_inline_safe"] = action_inline_safe; j["vector_target"] = vector_target; j["units"] = units;
-    j["fmtout"] = fmtout; j["unifout"] = unifout; j["esmry"] = esmry; j["rptonly"] = rptonly; j["sumthin"] = sumthin; j["date_conditions"] = date_conditions; j["nested_parens"] = nested_parens; j["stop_safe"] = stop_safe; j["weltarg_safe"] = weltarg_safe; j["cond_well_bias"] = cond_well_bias; j["min_wells"] = min_wells; j["reparent_groups"] = reparent_groups; j["late_edits"] = late_edits;
+    j["fmtout"] = fmtout; j["unifout"] = unifout; j["esmry"] = esmry; j["rptonly"] = rptonly; j["sumthin"] = sumthin; j["date_conditions"] = date_conditions; j["nested_parens"] = nested_parens; j["stop_safe"] = stop_safe; j["weltarg_safe"] = weltarg_safe; j["cond_well_bias"] = cond_well_bias; j["min_wells"] = min_wells; j["reparent_groups"] = reparent_groups; j["late_edits"] = late_edits; j["geo_kws"] = geo_kws;
     return j;
 }
 GenOpts GenOpts::from_json(const Json& j) {
@@ -77,7 +77,7 @@ GenOpts GenOpts::from_json(const Json& j) {
     o.step_events = j.getb("step_events", o.step_events); o.action_inline_safe = j.getb("action_inline_safe", o.action_inline_safe);
     o.vector_target = static_cast<int>(j.geti("vector_target", 0)); o.units = j.gets("units", "");
     o.fmtout = static_cast<int>(j.geti("fmtout", -1)); o.unifout = static_cast<int>(j.geti("unifout", -1)); o.esmry = j.getb("esmry", false);
-    o.rptonly = j.getb("rptonly", false); o.sumthin = j.getb("sumthin", false); o.date_conditions = j.getb("date_conditions", o.date_conditions); o.nested_parens = j.getb("nested_parens", o.nested_parens); o.stop_safe = j.getb("stop_safe", o.stop_safe); o.cond_well_bias = j.getd("cond_well_bias", 0.0); o.min_wells = static_cast<int>(j.geti("min_wells", 1)); o.reparent_groups = j.getb("reparent_groups", false); o.late_edits = j.getb("late_edits", false); o.weltarg_safe = j.getb("weltarg_safe", false);   // absent in replay files written before the knob existed
+    o.rptonly = j.getb("rptonly", false); o.sumthin = j.getb("sumthin", false); o.date_conditions = j.getb("date_conditions", o.date_conditions); o.nested_parens = j.getb("nested_parens", o.nested_parens); o.stop_safe = j.getb("stop_safe", o.stop_safe); o.cond_well_bias = j.getd("cond_well_bias", 0.0); o.min_wells = static_cast<int>(j.geti("min_wells", 1)); o.reparent_groups = j.getb("reparent_groups", false); o.late_edits = j.getb("late_edits", false); o.geo_kws = j.getb("geo_kws", false); o.weltarg_safe = j.getb("weltarg_safe", false);   // absent in replay files written before the knob existed
     return o;
 }
 
@@ -221,12 +221,20 @@ struct Gen {
         return k;
     }
 
+    Kw geo_kw() {
+        static const char* nm[] = {"MULTZ", "MULTX", "MULTY", "MULTZ-", "MULTX-", "MULTY-"};
+        Kw k; k.name = nm[rng.below(6)]; k.terminated = false;
+        k.recs.push_back({std::to_string(m.nx * m.ny * m.nz) + "*" + num(std::round(rng.real(0.1, 2.0) * 100) / 100)});
+        return k;
+    }
+
     Kw body_kw(bool inline_safe) {
         Kw k;
         auto wn = [&]() { return rng.chance(0.6) ? std::string("?") : m.wells[rng.below(m.wells.size())].name; };
         std::vector<std::string> prods; for (auto& w : m.wells) if (w.kind == "OPROD" && !w.history) prods.push_back(w.name);
         double u = rng.unit();
         if (o.reparent_groups && u < 0.08) { k = reparent(true); if (!k.recs.empty()) return k; k = Kw(); }
+        if (o.geo_kws && rng.chance(0.2)) return geo_kw();
         if (u < 0.35) { k.name = "WELOPEN"; static const char* st[] = {"SHUT", "OPEN", "STOP", "SHUT"}; k.recs.push_back({q(wn()), q(st[rng.below(4)])}); }
         else if (u < 0.55) { k.name = "WEFAC"; k.recs.push_back({q(wn()), num(efac())}); }
         else if (u < 0.70 && !prods.empty()) { k.name = "WELTARG"; static const char* md[] = {"ORAT", "LRAT", "BHP", "WRAT"}; std::string mo = md[rng.below(4)]; k.recs.push_back({q(prods[rng.below(prods.size())]), q(mo), num(mo == "BHP" ? bhp_lim(false) : rate())}); }
@@ -380,7 +388,8 @@ struct Gen {
             for (int e = 0; e < ne; ++e) {
                 double u = rng.unit(); Kw k;
                 const WellDef& w = m.wells[rng.below(m.wells.size())];
-                if (o.late_edits && rng.chance(0.4)) {
+                if (o.geo_kws && rng.chance(0.15)) k = geo_kw();
+                else if (o.late_edits && rng.chance(0.4)) {
                     const double v = rng.unit(); const double diam = m.units == "FIELD" ? 0.5 : m.units == "LAB" ? 10 : 0.2;
                     if (v < 0.3) { k.name = "WPIMULT"; k.recs.push_back({q(w.name), num(std::round(rng.real(0.25, 2.5) * 100) / 100)}); if (rng.chance(0.4)) { k.recs.back().push_back("2*"); k.recs.back().push_back(std::to_string(static_cast<int>(rng.range(w.k1, w.k2)))); } }
                     else if (v < 0.55 && w.msw) { k.name = "WSEGVALV"; const int nseg = w.k2 - w.k1 + 2; const int nrec = static_cast<int>(rng.range(1, 2));
